@@ -150,6 +150,22 @@ def one_d(eng, rows, weighted=True):
     return obs
 
 
+def percentages_of_differences(eng, strand=False):
+    """percentage forms are exactly 100 times the proportions for every cell, difference subtotals (negative values) included"""
+    from .cellworld import CellWorld
+    from .c11 import D, S
+    rows = ("cat", "a", 3, {"missing_at": (1,), "insertions": [D("d1-3", [1], [3], anchor="top"), S("s12", [1, 2])]})
+    cols = ("cat", "b", 2, {"missing_at": (0,), "insertions": [D("c1-2", [1], [2])]})
+    w = CellWorld(eng, [rows] if strand else [rows, cols])
+    part = Cube(w.response()).partitions[0]
+    obs = []
+    names = ["table"] if strand else ["row", "column", "table"]
+    for n in names:
+        P = getattr(part, n + "_proportions")
+        obs.append(Obs(n + "_percentages == 100 x proportions", getattr(part, n + "_percentages"), _times100(P.view(np.ndarray))))
+    return obs
+
+
 def specs(tier):
     out = []
     M = "props.c03"
@@ -169,6 +185,8 @@ def specs(tier):
     add("2d cat x cat+sub", "two_d", dict(rows=V("cat", "a", 2, (1,)), cols=Vs("cat", "b", 2, (2,), sub=[2, 1])))
     add("2d cat+sub x mr", "two_d", dict(rows=Vs("cat", "a", 2, (0,), sub=[1, 2]), cols=V("mr", "b", 2)))
     add("2d mr x cat+sub", "two_d", dict(rows=V("mr", "a", 2), cols=Vs("cat", "b", 2, (1,), sub=[1, 2])))
+    add("percentages of differences (slice)", "percentages_of_differences", dict())
+    add("percentages of differences (strand)", "percentages_of_differences", dict(strand=True))
     add("1d cat", "one_d", dict(rows=V("cat", "a", 3, (1,))))
     add("1d cat+sub", "one_d", dict(rows=Vs("cat", "a", 3, (0,), sub=[1, 3])))
     add("1d mr", "one_d", dict(rows=V("mr", "a", 3)))
